@@ -96,7 +96,8 @@ struct S
     if (global) {
       IO<G>::put(rhs, t < t1 ? x1(t) : x2(t - t1));
     } else {
-      IO<G>::put(rhs, t <= t1 ? x1(t) : composition(x1(t1), x2(t - t1)));
+      // right-continuous at the joint: y(t1) is the start of the appended part (equal to x1(t1) whenever x2 starts at the identity)
+      IO<G>::put(rhs, t < t1 ? x1(t) : composition(x1(t1), x2(t - t1)));
     }
   }
   template<int NS>
